@@ -174,6 +174,7 @@ let () =
       let parsed = List.map parse_script segs in
       (* ---- model *)
       let b = Buffer.create 256 in
+      let first_dump = ref None in
       let rec go i = function
         | [] -> ()
         | seg :: rest ->
@@ -184,6 +185,12 @@ let () =
           if continue_ then begin
             let (tr, live, built) = run_segment engine (List.map fst seg) in
             Buffer.add_string b (seg_obs (tr, live, built));
+            (match built with
+             | Some d when live && i = 0 -> first_dump := Some d
+             | Some _ when live && i > 0 ->
+               (* the models are pure: the first node is a value and reads as before *)
+               (match !first_dump with Some d0 -> Buffer.add_string b ("#again=" ^ d0) | None -> ())
+             | _ -> ());
             if live then go (i + 1) rest
           end in
       if not (starts_with engine "tbind:" || starts_with engine "tgen:") then go 0 parsed;
@@ -246,7 +253,8 @@ let () =
           let want_seg seg v =
             let tr = String.concat "" (List.map (fun (_, w) -> if w = "" then "." else w) seg) in
             "tr=" ^ tr ^ "|b=ok|t=" ^ string_of_dm v in
-          let want = String.concat "#rs=.#" (List.map2 want_seg parsed vals) in
+          let want = String.concat "#rs=.#" (List.map2 want_seg parsed vals) ^
+                     (match vals with v0 :: _ :: _ -> "#again=" ^ string_of_dm v0 | _ -> "") in
           if want = obs then "ok" else begin
             (* the first place where the implementation leaves the contract decides the class *)
             let isegs = Str_split.split obs in
@@ -261,7 +269,8 @@ let () =
                   | None -> set "truncated"
                   | Some o when o = w -> ()
                   | Some o ->
-                    if starts_with w "rs=" then begin
+                    if starts_with w "again=" then set "first_node_changed_after_reset"
+                    else if starts_with w "rs=" then begin
                       if bind && o = "rs=P" then set "bind_reset_panics" else set "reset"
                     end else begin
                       let get s name =
